@@ -131,7 +131,43 @@ def check(ctx: Ctx, ev: Evidence) -> list[Finding]:
             ev.inst("C11-R1d", f"{mi.name} | no module-level containers", "ok")
     from .c11_reset import reset_vs_fresh
     out += reset_vs_fresh(ctx, ev)
+    out += admission_matches_transaction(ctx, ev)
     ev.extra["explanation"] = (f"every dataclass field default, class attribute, default argument and module-level container of {len(prog.modules)} modules examined "
                                f"for shared mutable state; every function examined for stores to class attributes/globals; reset-vs-fresh comparison of the per-transaction blocks")
     ev.assume("objects handed in by the user (configuration, user, providers) are outside the property: sharing them between handlers is the user's decision")
+    return out
+
+
+def admission_matches_transaction(ctx: Ctx, ev: Evidence) -> list[Finding]:
+    """R4: a running transaction only consumes PDUs that were matched against its own ids: every packet-carrying
+    edge of a busy source handler that gets past admission compared the PDU's source id, destination id and
+    transaction sequence number with the transaction's (the comparison survives on every accepted path, because
+    the rejecting arm raises); the destination handler compares the destination id."""
+    from ..atsq import state_of, step_of
+    from ..core import witness_of
+    out: list[Finding] = []
+    ev.rule("C11-R4", "PDUs accepted by a busy handler were matched against the running transaction's ids (source: source id, destination id, sequence number)", 6)
+    need = {"source": ("pkt.source_entity_id", "pkt.dest_entity_id", "pkt.transaction_seq_num"), "dest": ("pkt.dest_entity_id",)}
+    for which in ("source", "dest"):
+        a = ctx.ats(which)
+        seen: set[str] = set()
+        for e in a.edges:
+            if e.label[0] != "state_machine" or e.label[1] is None or state_of(a, e.pre) != "BUSY":
+                continue
+            if e.exc is not None and e.exc.cls.startswith(("Invalid", "NoRemote", "PduIgnored")):
+                continue
+            if a.h.wget(e.pre, "_pdus_to_be_sent"):
+                continue
+            if any(x.kind == "store" and x.name.startswith("PduConfig.") for x in e.ev):
+                continue  # the call that starts the transaction rewrites the ids after admission (facts about the old values are dropped)
+            for idn in need[which]:
+                matched = any(isinstance(k, tuple) and k[0] in ("eq0", "eq") and idn in repr(k) and v is True for k, v in e.ch)
+                kk = f"{which} handler | {e.label[1]} PDU accepted in step {step_of(a, e.pre)}: {idn} matched: {matched}"
+                if kk in seen:
+                    continue
+                seen.add(kk)
+                ev.inst("C11-R4", kk, "ok" if matched else "violation")
+                if not matched:
+                    out.append(Finding("C11-R4", f"{which} handler | {e.label[1]} PDU accepted without matching {idn}",
+                                       f"a {e.label[1]} PDU gets past admission without its {idn.split('.')[1]} being compared with the running transaction's: PDUs of another transaction are consumed", "", witness_of(a, e)))
     return out
